@@ -50,10 +50,10 @@ def main():
                 out["apply"] = "3way" if rc3 == 0 else "FAILED: " + o3[-500:]
                 if rc3 != 0:
                     print(json.dumps(out, indent=1)); return 2
-                sh("git checkout -- . ; git reset -q", cwd=wt)
-                # regenerate patch against HEAD
-                sh("git apply --3way %s && git diff HEAD -- setigen > %s.new && git checkout -- . ; git reset -q --hard" % (patch, patch), cwd=wt)
-                if os.path.getsize(patch + ".new") > 0:
+                # regenerate the patch against HEAD (the 3-way result is staged)
+                sh("git diff HEAD -- setigen > %s.new; git reset -q --hard" % patch, cwd=wt)
+                if os.path.exists(patch + ".new") and os.path.getsize(patch + ".new") > 0:
+                    shutil.copy(patch, patch + ".orig")
                     shutil.move(patch + ".new", patch)
             else:
                 out["apply"] = "clean"
